@@ -157,6 +157,12 @@ def run(ck):
             variants += [(v[0], True) for v in list(variants)]
         for tagmode, negzero in variants:
             cf = [rnd.randint(0, 4000) / 4.0 for _ in range(3)]
+            # totals that are exactly zero are totals too (a view without income, without refunds, without spending)
+            z = rnd.randrange(8)
+            if z < 3:
+                cf[z] = 0.0
+            elif z == 3:
+                cf[0] = cf[2] = 0.0
             cases.append({'amount': c['amt'] / 4.0, 'tags': tags, 'tagmode': tagmode, 'negzero': negzero, 'cf': cf})
             expect.append({'vec': dict(o['vec']), 'excluded': o['excluded'], 'cash4': int(round((cf[0] - cf[1] + cf[2]) * 4))})
     js, err = run_js(cases)
@@ -207,6 +213,11 @@ def run(ck):
         tags = [rnd.choice(pool) for _ in range(k)]
         cents = rnd.choice([0, 1, -1, rnd.randint(-10**8, 10**8), rnd.randint(-1000, 1000)])
         cf = [rnd.randint(0, 10**6) for _ in range(3)]
+        z = rnd.randrange(8)
+        if z < 3:
+            cf[z] = 0
+        elif z == 3:
+            cf[0] = cf[2] = 0
         tcases.append({'amount': cents / 100.0, 'cents': cents, 'tags': tags, 'tagmode': 'list', 'negzero': False,
                        'cf': [x / 100.0 for x in cf], 'cfc': cf})
     # arbitrary floats: differential only (the spec works on exact sub-units)
@@ -214,7 +225,7 @@ def run(ck):
     for i in range(n // 2):
         mag = rnd.choice([1e-9, 1e-3, 1.0, 1e3, 1e9, 1e15])
         fcases.append({'amount': rnd.uniform(-1, 1) * mag, 'tags': [rnd.choice(pool) for _ in range(rnd.randint(0, 3))],
-                       'tagmode': 'list', 'negzero': False, 'cf': [rnd.random() * mag for _ in range(3)]})
+                       'tagmode': 'list', 'negzero': False, 'cf': [0.0 if rnd.random() < 0.2 else rnd.random() * mag for _ in range(3)]})
     js, err = run_js(tcases + fcases)
     py = run_py(tcases + fcases)
     recs = []
